@@ -21,6 +21,11 @@ CHECKS = {
                      "passes the same patterns and its result is merged under its own keys, the per-file result is pushed under the pattern that produced it. "
                      "Decides the merge discipline for all trees and listing orders; does not model what read_dir lists.",
                 note=_MIR + "; HashMap::entry/Vec::push/append semantics"),
+    "C10": dict(level="other", design_ref="5/C10", technique="table extraction (size function), guarded-update transition system of the slot counter compared with the reference greedy system, site-level ordering of clone/sort/compare (static analysis)",
+                text="Decides that the size table equals the specified one for every variant of pt::Type, that the counter's guarded updates are exactly the reference "
+                     "greedy system (syntactic equality after normalisation, so the arithmetic over all sequences is the reference's), and that both packing detectors "
+                     "report iff slots(declared order) > slots(sorted permutation of the same list), reporting the container's own location.",
+                note=_MIR + "; slice::sort permutes; the greedy rule is Solidity's layout rule"),
     "C11": dict(level="other", design_ref="5/C11", technique="MIR provenance of string pieces + dispatch-table extraction (static analysis)",
                 text="Structural: section dispatch total/injective/name-agreeing for all 30 patterns, entry = '- ' file ':' line '\\n' built from the current loop "
                      "elements for every (file, line) without filter, list created per pattern and appended after that pattern's section, section iff non-empty, "
